@@ -1,9 +1,9 @@
 SPECIFICATION Spec
 CONSTANTS
-  MaxScopes = 7
-  MaxDecls = 5
-  MaxRefs = 6
-  Names <- NameSet
+  MaxScopes = 2
+  MaxDecls = 1
+  MaxRefs = 1
+  Names <- OneName
   Hows <- HowAll
   Positions <- PosAll
   DumpMod = 1
